@@ -102,6 +102,7 @@ ADDED = {
  "C10-r7a": "typed documents with non-ASCII continuation lines (last byte 0x85 / 0xA0)",
  "C10-r7b": "continuation lines whose text starts with '#' off the first column",
  "C11-r7a": "law-clearsig-reader: the caller's bufio.Reader reset / drained after NewParagraphReader returned",
+ "C11-r7b": "two files walked side by side: another reader opened between the last paragraph of a verified reader and its end-of-input call (40 rounds)",
  "C12-r7b": "a finished verifier that is still written to while the next one of the same algorithm is open",
  "C14-r7a": "payloads that do not compress (5 - 70 KiB), read after Load through both entry points",
  "C14-r7b": "tar members with V7 (pre-POSIX) headers",
